@@ -88,6 +88,8 @@ func c08Failing(keys []val.Item, thorough, twoIdx bool) []drv.Op {
 		add("BatchWrite(put without key, then valid put)", drv.Op{K: drv.KBatchWrite, Batch: []drv.BWReq{{Table: "tab", Put: val.Item{"a": val.S("nokey")}}, {Table: "tab", Put: with(k, "a", val.S("batch"))}}})
 		add("BatchWrite(valid delete, then delete with wrong-typed key)", drv.Op{K: drv.KBatchWrite, Batch: []drv.BWReq{{Table: "tab", Del: k}, {Table: "tab", Del: val.Item{"h": val.N("1")}}}})
 		add("BatchWrite(valid put, then put with wrong-typed index key)", drv.Op{K: drv.KBatchWrite, Batch: []drv.BWReq{{Table: "tab", Put: with(other, "a", val.S("batch"))}, {Table: "tab", Put: with(k, "g", val.N("5"))}}})
+		add("BatchWrite(valid put, put without key, valid put)", drv.Op{K: drv.KBatchWrite, Batch: []drv.BWReq{{Table: "tab", Put: with(k, "a", val.S("batch"))}, {Table: "tab", Put: val.Item{"a": val.S("nokey")}}, {Table: "tab", Put: with(other, "a", val.S("batch"))}}})
+		add("BatchWrite(valid delete, put with wrong-typed index key, valid put)", drv.Op{K: drv.KBatchWrite, Batch: []drv.BWReq{{Table: "tab", Del: other}, {Table: "tab", Put: with(k, "g", val.N("5"))}, {Table: "tab", Put: with(other, "a", val.S("batch"))}}})
 		add("BatchWrite(put and delete in one request)", drv.Op{K: drv.KBatchWrite, Batch: []drv.BWReq{{Table: "tab", Put: with(other, "a", val.S("batch"))}, {Table: "tab", Put: with(k), Del: k, Both: true}}})
 	}
 	add("Query(unknown table)", drv.Op{K: drv.KQuery, Table: "nope", KeyCond: rx.Eq("h", ":v"), Values: sv})
